@@ -26,7 +26,9 @@ PRIVATE_V6 = ['::1', 'fe80::1', 'fc00::1', 'fd12:3456::1', 'ff02::1', '::', '200
 GOOD_HOSTS = ['electrum.example.com', 'a-b.c0.org', 'sv.usebsv.net', 'x.y.z.example.io', 'e1.example.com', 'e2.example.com',
               'e3.example.com', 'node-7.bsv.example.org']
 BAD_HOSTS = ['bad host.com', 'bad!host.com', '-lead.com', 'trail-.com', 'a..b.com', '', 'x' * 64 + '.com', ('a' * 60 + '.') * 5 + 'com',
-             '1.2.3.256', 'localhost', 'foo.123']
+             '1.2.3.256', 'localhost', 'foo.123',
+             # address literals with stray brackets: neither a host name nor an address
+             '[8.8.8.8]', '8.8.8.8]', '[[8.8.8.8', ']8.8.4.4[', '1.2.3.4[]', '[2001:4860:4860::8888]', '[2606:4700:4700::1111', '(8.8.8.8)', '<1.2.3.4>']
 ONION = [f'{c * 16}.onion' for c in 'abcdefghijklmnopqrstuvwxyz234567'] + [f'{c * 8}{d * 8}.onion' for c in 'abcdefgh' for d in 'ijklmnop']
 
 
@@ -117,10 +119,18 @@ def child_population(case):
             pm = peersmod.PeerManager(env, None)
             truth = {}
             npeers = rng.choice((3, 10, 30, 80, 160))
+            # a quarter of the populations are onion-heavy with the clearnet peers crowded into few buckets, all recently verified:
+            # few clearnet peers are handed out while many good peers are known
+            onion_heavy = pop % 3 == 2
+            if onion_heavy:
+                npeers = rng.choice((80, 160, 240))
+                bump('onion_heavy_populations')
             hosts_used = set()
             ips = PUBLIC_V4 + PUBLIC_V6
             for _ in range(npeers):
                 kind = rng.choice(('pub4', 'pub6', 'priv4', 'priv6', 'host', 'host', 'badhost', 'onion', 'onion'))
+                if onion_heavy:
+                    kind = rng.choice(('onion', 'onion', 'onion', 'host', 'pub4'))
                 ip_addr = None
                 if kind == 'pub4':
                     host = rng.choice(PUBLIC_V4)
@@ -136,7 +146,7 @@ def child_population(case):
                     ip_addr = host
                 elif kind == 'host':
                     host = rng.choice(GOOD_HOSTS) if rng.random() < 0.5 else f'h{rng.randrange(200)}.example.net'
-                    ip_addr = rng.choice(ips + [None])
+                    ip_addr = rng.choice(ips + [None]) if not onion_heavy else rng.choice(PUBLIC_V4[:6])     # two /16s
                 elif kind == 'badhost':
                     host = rng.choice(BAD_HOSTS)
                     ip_addr = rng.choice(ips + [None])
@@ -146,6 +156,8 @@ def child_population(case):
                     continue
                 hosts_used.add(host)
                 age = rng.choice(('good', 'good', 'good', 'justgood', 'juststale', 'stale', 'never', 'boundary'))
+                if onion_heavy and rng.random() < 0.85:
+                    age = 'good'
                 last_good = {'good': NOW - rng.randrange(1, 3000), 'justgood': NOW - STALE + 1, 'juststale': NOW - STALE - 1,
                              'stale': NOW - 5 * STALE, 'never': 0, 'boundary': NOW - STALE}[age]
                 p = Peer(host, mk_features(host), 'test', ip_addr=ip_addr, last_good=last_good)
